@@ -9,7 +9,7 @@ PY = "/venv/bin/python"
 
 CHECKS = {
     "C01": dict(cat="exploration", ref="DESIGN.md §5 C01",
-        technique="property-based testing (Hypothesis): constructed near-threshold pairs x spellings x settings vs independent WCAG + CSS oracles; grey/keyword lattices enumerated",
+        technique="property-based testing (Hypothesis): constructed near-threshold pairs x spellings x settings (optionally after a warm-up call with other settings on the same object) vs independent WCAG + CSS oracles; grey/keyword lattices enumerated",
         text="Generated-input search: thousands of text/background pairs constructed on both sides of each WCAG threshold, in every accepted spelling and all 12 settings, with the success flag compared against an independent WCAG verdict on the returned colour as re-read by an independent CSS parser. Exploration is the right level: the domain (2^48 x 12 x spellings) cannot be enumerated and the optimiser is float search code no solver handles.",
         note="Trusted: O-WCAG and O-CSS oracles (self-tested against published anchors at every run), Hypothesis. Ratios within 1e-9 of a threshold are re-judged in 40-digit decimal."),
     "C02": dict(cat="exploration", ref="DESIGN.md §5 C02",
@@ -33,15 +33,15 @@ CHECKS = {
         text="Every 8-bit colour is formatted in each output format and re-read by both parsers (thorough: all 2^24; quick: boundary lattice + samples); the format mapping is checked on generated pairs covering unchanged/fixed/failed outcomes for every input spelling.",
         note="Trusted: O-CSS exact-rational parser (cross-checked against tinycss2.color3)."),
     "C07": dict(cat="exploration", ref="DESIGN.md §5 C07",
-        technique="grammar-based generation of CSS Color 3 strings judged by an exact-rational reference parser; exhaustive hex and keyword enumeration; metamorphic re-spelling",
+        technique="grammar-based generation of CSS Color 3 strings judged by an exact-rational reference parser; exhaustive hex and keyword enumeration; metamorphic re-spelling; thorough: coverage-guided atheris stage driving the same structured generator (hypothesis fuzz_one_input)",
         text="Strings are generated first and the expected colour computed by O-CSS in exact arithmetic, so 'nearest 8-bit value' is decided exactly; all hex strings and keywords are enumerated.",
         note="Trusted: O-CSS; strings restricted to plain decimal notation as the property states."),
     "C08": dict(cat="exploration", ref="DESIGN.md §5 C08",
-        technique="model-based stylesheet generation (AST + rendering) run through the CLI in-process; output re-parsed with an independent structural parser and judged against the report, the Python API and O-WCAG",
+        technique="grammar-based stylesheet generation (unique marker selectors) run through the real click command in-process, single files and directory runs; output re-parsed with an independent structural parser (tinycss2 tokenizer + own var() resolver) and judged against the stdout counts, the report cards, the Python API and O-WCAG",
         text="Thousands of generated stylesheets x settings; the counts, the 'Could not tune' list, the report cards and the written _cm.css are cross-checked in the directions the property states.",
         note="Trusted: tinycss2 tokenizer (as an independent reader of the output), O-CSS, O-WCAG, html.parser."),
     "C09": dict(cat="exploration", ref="DESIGN.md §5 C09",
-        technique="model-based stylesheet generation with carry-through material; structural normal-form comparison (O-SHEET) of output vs expected; file-system before/after diff + audit hook",
+        technique="grammar-based stylesheet generation with carry-through material; structural normal-form comparison (O-SHEET) of output vs input after masking exactly the values the property allows to differ; file-system before/after diff + audit hook; file / directory / '.' / symlink invocation",
         text="Generated stylesheets containing everything the tool must carry through; inputs must be byte-identical afterwards, created paths exactly the documented ones, and the output's normal form equal to the input's except for reported colour values.",
         note="Trusted: tinycss2 tokenizer for deciding that two texts mean the same."),
     "C10": dict(cat="exploration", ref="DESIGN.md §5 C10",
@@ -65,7 +65,7 @@ CHECKS = {
         text="Any string or short sequence through Color/ColorPair/bulk: nothing may escape, and the object must be in one of the two documented states.",
         note="Trusted: Hypothesis, atheris; atheris stage skipped (and reported) if the wheel cannot be installed."),
     "C15": dict(cat="exploration", ref="DESIGN.md §5 C15",
-        technique="stateful property-based testing (Hypothesis RuleBasedStateMachine) against a fresh-interpreter reference table; threaded replays of a fixed workload",
+        technique="stateful property-based testing (Hypothesis RuleBasedStateMachine) against a reference table computed one operation per fresh interpreter (three hash seeds); threaded runs of a fixed workload behind a barrier with a 10 microsecond switch interval",
         text="Histories of API operations (construct, query, fix, bulk, in-process CLI) with every step compared to the result of the same operation in a brand-new interpreter; thread leg samples interleavings.",
         note="The harness does not own CPython's thread schedule: the concurrency clause is sampled, not enumerated."),
     "C16": dict(cat="exploration", ref="DESIGN.md §5 C16",
